@@ -296,7 +296,7 @@ def run_daemon(desc):
             msgs = peer.drain(quiet=1.0, limit=30)
             replies = [json.loads(x) for x in d.lines('replies')]
         except daemon.Inconclusive as e:
-            res.inconclusive.append('daemon: ' + str(e)[:400])
+            daemon.skipped(res, str(e))
             continue
         finally:
             try:
